@@ -46,7 +46,7 @@ class StubDNAS:
 def cases(tier, seed):
     cs = []
     i = 0
-    reps = 1 if tier == 'quick' else 4
+    reps = 1 if tier == 'quick' else 12
     for rep in range(reps):
         for n in range(1, 51):
             for e in range(0, n + 1):
